@@ -365,6 +365,241 @@ def check_keys(ctx, cases, stats, kf_ids):
                 report(ctx, {"mode": "keys", "seed": ctx.seed, "case": cs}, "PS: a signature with an identity component is accepted (or the honest one rejected)")
 
 
+# ---------------------------------------------------------------------------------------- ECVRF executable tie
+import hashlib
+
+ED_L = 2 ** 252 + 27742317777372353535851937790883648493
+PRE_X = ("From Coq Require Import ZArith NArith List. Import ListNotations.\n"
+         "From CB Require Import Crypto.VrfBytes Crypto.VrfBytesExec.\n"
+         "Local Open Scope Z_scope.\n")
+
+
+def nb(b):
+    """bytes -> Coq [list N] literal"""
+    if isinstance(b, str):
+        b = bytes.fromhex(b)
+    if len(b) == 0:
+        return "(@nil N)"
+    return "([" + "; ".join(str(x) for x in b) + "]%N)"
+
+
+def vrfx_traces(cs):
+    """the prove trace and every verify trace for which the implementation computed H, Gamma, U, V"""
+    tr = [dict(cs["prove"], alpha=cs["alpha"], what="prove")]
+    tr += [dict(t, what="verify:" + t["label"]) for t in cs["verifies"] if "H" in t]
+    return tr
+
+
+def vrfx_pass1_exprs(cs):
+    skd = hashlib.sha512(bytes.fromhex(cs["sk"])).digest()
+    return ["x_vrf_strings %s %s %s %d%%nat %s %s %s %s %s" % (nb(skd), nb(cs["pk"]), nb(t["alpha"]), len(t["cands"]), nb(t["H"]), nb(t["Gamma"]),
+                                                            nb(t["U"]), nb(t["V"]), nb(t["G8"])) for t in vrfx_traces(cs)]
+
+
+def vrfx_pass2_expr(ctx, cs, strings, idx):
+    """check the framing strings against the implementation's candidates, hash them with a real SHA-512 and
+    build the oracle instance on which the composite model functions run"""
+    sk = bytes.fromhex(cs["sk"])
+    sha = {sk: hashlib.sha512(sk).digest()}
+    digests = {}
+    for t, (x, h2cs, nonce_s, ch_s, beta_s) in zip(vrfx_traces(cs), strings):
+        for i, st in enumerate(h2cs):
+            d = hashlib.sha512(bytes(st)).digest()
+            sha[bytes(st)] = d
+            if d[:32].hex() != t["cands"][i]:
+                report(ctx, {"mode": "vrfx", "seed": ctx.seed, "index": idx, "sk": cs["sk"], "alpha": t["alpha"], "ctr": i, "model_string": bytes(st).hex(),
+                             "impl_candidate": t["cands"][i], "layer": "VrfBytes.h2c_input vs hash_to_curve"},
+                       "ECVRF hash_to_curve: SHA-512 of the model's input string (ctr %d) is not the candidate the implementation decompressed" % i)
+        for st in (nonce_s, ch_s, beta_s):
+            sha[bytes(st)] = hashlib.sha512(bytes(st)).digest()
+        if t["what"] == "prove":
+            digests = {"nonce": sha[bytes(nonce_s)], "ch": sha[bytes(ch_s)], "beta": sha[bytes(beta_s)]}
+    o = cs["ops"]
+    tab_sha = "[" + "; ".join("(%s, %s)" % (nb(k), nb(v)) for k, v in sha.items()) + "]"
+    tab_mul = "[" + "; ".join("(%s, %s, %s)" % (z, nb(pp), nb(r)) for z, pp, r in o["mul"]) + "]"
+    tab_add = "[" + "; ".join("(%s, %s, %s)" % (nb(a), nb(b), nb(r)) for a, b, r in o["add"]) + "]"
+    tab_neg = "[" + "; ".join("(%s, %s)" % (nb(a), nb(r)) for a, r in o["neg"]) + "]"
+    tab_dec = "[" + "; ".join("(%s, %s)" % (nb(a), ("Some %s" % nb(r)) if r is not None else "(@None (list N))") for a, r in o["dec"]) + "]"
+    ver = cs["verifies"]
+    skd = hashlib.sha512(sk).digest()
+    e = ("let o := mk_oracles %s %s %s %s %s %s in "
+         "(x_vrf_prove o %s %s %s %s, x_vrf_pk o %s, [%s], [%s], map (fun v => match x_vrf_decode o v with Some p => x_vrf_encode p | None => None end) [%s], "
+         "x_vrf_scalars %s %s %s, x_vrf_decode_pk o %s)"
+         % (tab_sha, tab_mul, tab_add, tab_neg, tab_dec, nb(cs["B"]),
+            nb(sk), nb(cs["pk"]), nb(cs["pk"]), nb(cs["alpha"]), nb(sk),
+            "; ".join("x_vrf_verify o %s %s %s %s" % (nb(cs["pk"]), nb(cs["pk"]), nb(t["pi"]), nb(t["alpha"])) for t in ver),
+            "; ".join("x_vrf_hash o %s" % nb(t["pi"]) for t in ver),
+            "; ".join(nb(v["bytes"]) for v in cs["variants"]),
+            nb(skd), nb(digests["nonce"]), nb(digests["ch"]), nb(cs["pk"])))
+    return e, digests
+
+
+def optbytes(t):
+    """('Some', [..]) -> hex, 'None' -> None"""
+    if t == "None":
+        return None
+    return bytes(t[1]).hex()
+
+
+def check_vrfx(ctx, cs, term, digests, idx, stats):
+    rep = {"mode": "vrfx", "seed": ctx.seed, "index": idx, "sk": cs["sk"], "alpha": cs["alpha"], "pk": cs["pk"], "pi": cs["pi"],
+           "how": "harness/c19: `c19 vrfx <seed> <n>`; model: Crypto/VrfBytesExec.v on oracle tables filled by dalek + SHA-512"}
+    prove, pk, ver, hashes, variants, scal, dpk = term
+    stats["vrfx_alpha"][len(cs["alpha"]) // 2] = stats["vrfx_alpha"].get(len(cs["alpha"]) // 2, 0) + 1
+    stats["vrfx_attempts"][len(cs["prove"]["cands"])] = stats["vrfx_attempts"].get(len(cs["prove"]["cands"]), 0) + 1
+    if cs["prove"].get("gamma_is_xH") is not True:
+        report(ctx, dict(rep, layer="Vrf.vrf_prove: Gamma = x*H"), "ECVRF: Gamma of the real proof is not x*H")
+    if (bytes(pk[0]).hex(), bytes(pk[1]).hex()) != (cs["pk"], cs["pk"]):
+        report(ctx, dict(rep, model=[bytes(pk[0]).hex(), bytes(pk[1]).hex()], layer="VrfBytes.pk_of_secret / expand_key / clamp vs PublicKey::from(&SecretKey)"),
+               "ECVRF: public key derived by the model differs from the implementation")
+    if optbytes(prove) != cs["pi"]:
+        report(ctx, dict(rep, model=optbytes(prove), layer="VrfBytes.ecvrf_prove_bytes (framing, nonce, challenge truncation, response, encoding) vs SecretKey::prove + Serial"),
+               "ECVRF: the proof bytes computed by the model differ from the implementation")
+    if tuple(scal) != (int(cs["x"]), int(cs["kk"]), int(cs["c"]), int(cs["s"])):
+        report(ctx, dict(rep, model=list(scal), impl=[cs["x"], cs["kk"], cs["c"], cs["s"]], layer="expand_key / nonce_of_digest / challenge_of_digest / response"),
+               "ECVRF: scalars (x, k, c, s) computed by the model from real digests differ from the implementation")
+    if int(cs["c"]) != int.from_bytes(digests["ch"][:16], "little") or cs["beta"] != digests["beta"].hex():
+        report(ctx, dict(rep, layer="challenge_input / beta_input framing"), "ECVRF: SHA-512 of the model's transcript is not the real challenge / output")
+    if dpk == "None" or bytes(dpk[1][0]).hex() != cs["pk"]:
+        report(ctx, dict(rep, layer="VrfBytes.decode_pk"), "ECVRF: the model rejects the honest public key bytes")
+    expect = {"honest": True}
+    for t, mv, mh in zip(cs["verifies"], bl(ver), hashes):
+        stats["decisions"] += 1
+        impl = t.get("decision", False) if t["parsed"] else False
+        stats["accepts" if impl is True else "rejects"] += 1
+        if "H_impl" in t and "H" in t and t["H_impl"] != t["H"]:
+            report(ctx, dict(rep, trace=t["label"]), "ECVRF: hash_to_curve of the implementation differs from the recorded candidate loop")
+        if impl != mv:
+            report(ctx, dict(rep, trace=t["label"], proof=t["pi"], message=t["alpha"], impl=impl, model=mv, theorem="ecvrf_verify_bytes_iff",
+                             layer="VrfBytes.ecvrf_verify_bytes vs Deserial + PublicKey::verify"),
+                   "ECVRF verify (%s): implementation %s, model %s" % (t["label"], impl, mv))
+        elif impl is not expect.get(t["label"], False):
+            report(ctx, dict(rep, trace=t["label"], proof=t["pi"], message=t["alpha"], impl=impl),
+                   "ECVRF verify (%s): %s, expected %s" % (t["label"], impl, expect.get(t["label"], False)))
+        if t["parsed"] and "beta" in t and optbytes(mh) != t["beta"]:
+            report(ctx, dict(rep, trace=t["label"], model=optbytes(mh), impl=t["beta"], layer="VrfBytes.ecvrf_hash_bytes vs Proof::to_hash"),
+                   "ECVRF to_hash (%s): model and implementation differ" % t["label"])
+    for v, mv in zip(cs["variants"], variants):
+        stats["decisions"] += 1
+        stats["vrfx_variants"][v["label"]] = stats["vrfx_variants"].get(v["label"], [0, 0])
+        stats["vrfx_variants"][v["label"]][0 if v["parsed"] else 1] += 1
+        m = optbytes(mv)
+        if (m is not None) != v["parsed"] or (v["parsed"] and m != v["reser"]):
+            report(ctx, dict(rep, variant=v["label"], bytes=v["bytes"], impl_parsed=v["parsed"], impl_reserialized=v["reser"], model=m,
+                             theorem="ecvrf_proof_codec", layer="VrfBytes.decode_proof / encode_proof vs Deserial / Serial for Proof"),
+                   "ECVRF proof decoding ('%s'): implementation parsed=%s, model %s" % (v["label"], v["parsed"], "accepts" if m is not None else "rejects"))
+        big = len(v["bytes"]) >= 160 and int.from_bytes(bytes.fromhex(v["bytes"])[48:80], "little") >= ED_L
+        if big and v["parsed"]:
+            report(ctx, dict(rep, variant=v["label"], bytes=v["bytes"]), "ECVRF: a proof with s >= l deserializes")
+    stats["nontrivial"].add(c.digest([cs["pk"], cs["alpha"], "vrfx"]))
+
+
+def run_vrfx(ctx, binp, stats, n):
+    cases = run_mode(ctx, binp, ["vrfx", ctx.seed, n])
+    if cases is None:
+        return 0
+    bad = [cs for cs in cases if "panic" in cs]
+    for cs in bad:
+        report(ctx, {"mode": "vrfx", "seed": ctx.seed, "case": cs}, "ECVRF prove panicked")
+    cases = [cs for cs in cases if "panic" not in cs]
+    try:
+        ex1 = [vrfx_pass1_exprs(cs) for cs in cases]
+        flat = [e for l in ex1 for e in l]
+        t1 = c.coq_eval(ctx, "vrfx1", PRE_X, flat, max(1, (len(flat) + 5) // 6), 900)
+        pos = 0
+        ex2 = []
+        for idx, (cs, l) in enumerate(zip(cases, ex1)):
+            ex2.append(vrfx_pass2_expr(ctx, cs, t1[pos:pos + len(l)], idx))
+            pos += len(l)
+        t2 = c.coq_eval(ctx, "vrfx2", PRE_X, [e for e, _ in ex2], max(1, (len(ex2) + 5) // 6), 900)
+        for idx, (cs, (e, dg), t) in enumerate(zip(cases, ex2, t2)):
+            check_vrfx(ctx, cs, t, dg, idx, stats)
+        if cases:
+            cs = cases[-1]
+            ctx.cov["samples"].append({"k": "vrfx", "alpha": cs["alpha"][:32], "attempts": len(cs["prove"]["cands"]), "model_proof_equals_impl": optbytes(t2[-1][0]) == cs["pi"],
+                                       "verify": {t["label"]: t.get("decision") for t in cs["verifies"]}, "variants_parsed": {v["label"]: v["parsed"] for v in cs["variants"]}})
+    except RuntimeError as e:
+        ctx.violation({"layer": "model evaluation (VrfBytesExec.v)", "error": str(e)[-1500:]}, "the byte-level ECVRF model could not be evaluated", no_input=True)
+    return len(cases)
+
+
+# ---------------------------------------------------------------------------------------- has_duplicates / chunked key sums
+def run_dups(ctx, binp, stats, n):
+    cases = run_mode(ctx, binp, ["dups", ctx.seed, n])
+    if cases is None:
+        return 0
+    ok = [cs for cs in cases if "panic" not in cs]
+    for cs in cases:
+        if "panic" in cs:
+            report(ctx, {"mode": "dups", "seed": ctx.seed, "case": cs}, "has_duplicates panicked")
+    try:
+        terms = c.coq_eval(ctx, "dups", PRE_X, ["x_has_dup %s" % zl("0x" + d for d in cs["digests"]) for cs in ok], max(1, (len(ok) + 3) // 4), 600)
+    except RuntimeError as e:
+        ctx.violation({"layer": "model evaluation (DupSort.v)", "error": str(e)[-1500:]}, "the has_duplicates model could not be evaluated", no_input=True)
+        return 0
+    for idx, (cs, t) in enumerate(zip(ok, terms)):
+        coded, ref = (x == "true" for x in t)
+        oracle = len(set(cs["msgs"])) != len(cs["msgs"])
+        stats["decisions"] += 1
+        stats["dups"]["%d/%s" % (cs["len"], "dup" if oracle else "distinct")] = stats["dups"].get("%d/%s" % (cs["len"], "dup" if oracle else "distinct"), 0) + 1
+        if [hashlib.sha512(bytes.fromhex(m)).hexdigest() for m in cs["msgs"]] != cs["digests"]:
+            report(ctx, {"mode": "dups", "seed": ctx.seed, "index": idx, "case": cs}, "hash_message is not SHA-512 of the message")
+        if not (cs["has_duplicates"] == coded == ref == oracle):
+            report(ctx, {"mode": "dups", "seed": ctx.seed, "index": idx, "messages": cs["msgs"], "impl": cs["has_duplicates"], "model_sort_and_scan": coded,
+                         "model_quadratic": ref, "oracle": oracle, "theorem": "has_duplicates_sort_and_scan_iff", "layer": "DupSort.has_duplicates_coded vs aggregate_sig::has_duplicates (hook)"},
+                   "has_duplicates on %d messages: implementation %s, model %s, expected %s" % (cs["len"], cs["has_duplicates"], coded, oracle))
+        stats["nontrivial"].add(c.digest([cs["msgs"], "dups"]))
+    return len(ok)
+
+
+PAR_SHAPES = [(1, 0), (7, 3), (64, 9), (150, 1)]
+
+
+def run_par(ctx, binp, stats):
+    runs = {}
+    for th in ("1", "5"):
+        rc, out = c.run_bin(binp, ["par", ctx.seed], timeout=1500, env={"RAYON_NUM_THREADS": th})
+        if rc != 0:
+            ctx.violation({"layer": "harness run", "args": ["par"], "output": out[-2000:]}, "harness crashed in mode par", no_input=True)
+            return 0
+        runs[th] = [json.loads(l) for l in out.splitlines() if l.startswith("{")]
+    cases = runs["1"]
+    for a, b in zip(runs["1"], runs["5"]):
+        if (a["toy"], a["real"]) != (b["toy"], b["real"]):
+            report(ctx, {"mode": "par", "seed": ctx.seed, "n": a["n"], "threads=1": [a["toy"], a["real"]], "threads=5": [b["toy"], b["real"]],
+                         "theorem": "par_reduce_any_tree_is_sequential"}, "aggregate verification depends on the number of rayon threads (n=%d keys)" % a["n"])
+    try:
+        exprs = ["x_par %s 150%%nat %d%%nat %d%%nat %s" % (hx(R), n, d, zl(hx(k) for k in cs["sks"])) for cs in cases for (n, d) in PAR_SHAPES]
+        terms = c.coq_eval(ctx, "par", PRE_X, exprs, max(1, (len(exprs) + 5) // 6), 900)
+    except RuntimeError as e:
+        ctx.violation({"layer": "model evaluation (ParReduce.v)", "error": str(e)[-1500:]}, "the chunked-reduction model could not be evaluated", no_input=True)
+        return 0
+    for i, cs in enumerate(cases):
+        total = sum(int(k) for k in cs["sks"]) % R
+        n = cs["n"]
+        rep = {"mode": "par", "seed": ctx.seed, "n": n, "secret_keys": cs["sks"][:4] + ["..."], "theorem": "aggregate_verifiers_as_coded_agree / par_reduce_any_tree_is_sequential"}
+        for j, (cn, d) in enumerate(PAR_SHAPES):
+            t = terms[i * len(PAR_SHAPES) + j]
+            if any(int(v) != total for v in t):
+                report(ctx, dict(rep, chunk=cn, depth=d, model=list(t), expected=total), "chunked / tree / threshold key sums of the model differ from the plain sum (n=%d)" % n)
+        if int(cs["toy"]["sig_exp"] or -1) != int(cs["h"]) * total % R:
+            report(ctx, dict(rep, toy_sig=cs["toy"]["sig_exp"], expected=int(cs["h"]) * total % R), "toy aggregate is not H(m) * sum of the keys (n=%d)" % n)
+        for inst in ("toy", "real"):
+            r = cs[inst]
+            if r is None:
+                continue
+            stats["decisions"] += 4
+            want = {"trusted": n > 0, "trusted_bad": False, "hybrid": True, "hybrid_bad": False}
+            for k, w in want.items():
+                if r[k] is not w:
+                    report(ctx, dict(rep, instance=inst, variant=k, impl=r[k], model=w),
+                           "%s with %d keys (%s): implementation %s, model (key sum = sequential sum) %s" % (k, n, inst, r[k], w))
+        stats["nontrivial"].add(c.digest([cs["sks"][:3], n, "par"]))
+    ctx.notes["par_key_counts"] = [cs["n"] for cs in cases]
+    ctx.notes["par_model_shapes(chunk size, split depth)"] = PAR_SHAPES
+    return len(cases)
+
+
 def run_mode(ctx, binp, args, timeout=1500):
     rc, out = c.run_bin(binp, args, timeout=timeout)
     if rc != 0:
@@ -386,14 +621,16 @@ def run(ctx):
         "prime-order groups with a bilinear non-degenerate pairing = one-dimensional modules over the scalar field (plaws, PairingAlg.v); arkworks / dalek curve arithmetic is not modelled",
         "hash functions (hash_to_group, SHA-512, SHA3 random oracle, ECVRF hash framings) are abstract in the theorems; unforgeability, pseudorandomness and full VRF uniqueness are computational (co-CDH, DL, ROM) and are NOT proved: PARTIAL",
         "the generic Rust code is tied to the model through a toy Pairing instance (exponent arithmetic) implemented in the harness, and through decisions/relations on BLS12-381",
-        "has_duplicates: the sort-and-scan on SHA-512 digests is modelled as 'some digest occurs twice' (tied by correspondence); distinct messages are assumed to have distinct digests",
+        "has_duplicates: sort-and-scan is proved equivalent to 'two positions hold the same digest' for every correct sorting function; that sort_unstable sorts is assumed (tied through the hook verif_has_duplicates); distinct messages are assumed to have distinct digests",
+        "ECVRF byte-level model: curve arithmetic, point (de)compression and SHA-512 are oracles (dalek / hashlib) in the executable tie and abstract (group laws, order 8l, decompress(compress P) = P) in the theorems",
+        "rayon: fold/reduce is modelled as an arbitrary binary split tree over consecutive segments, each leaf folded from the identity (the documented semantics of rayon; rayon itself is not modelled)",
     ]
     ok, info = c.coq_prove(ctx)
     proof_broken = None
     if not ok:
         proof_broken = info
         ctx.log("proof obligations broken:", info["failed_file"], info["error"][-400:])
-    okm, outm = c.coq_build(ctx, ["Crypto/Bls.vo", "Crypto/Ps.vo", "Crypto/Vrf.vo", "Crypto/C19Exec.vo"])
+    okm, outm = c.coq_build(ctx, ["Crypto/Bls.vo", "Crypto/Ps.vo", "Crypto/Vrf.vo", "Crypto/C19Exec.vo", "Crypto/VrfBytesExec.vo"])
     if not okm:
         ctx.violation({"layer": "model build", "output": outm}, "the executable models no longer build", no_input=True)
         return
@@ -412,7 +649,7 @@ def run(ctx):
         return
     q = ctx.quick
     stats = {"decisions": 0, "accepts": 0, "rejects": 0, "nontrivial": set(), "bls_sizes": {}, "ps_shapes": {}, "vrf_alpha": {},
-             "flip_parsed": 0, "flip_noparse": 0,
+             "flip_parsed": 0, "flip_noparse": 0, "vrfx_alpha": {}, "vrfx_attempts": {}, "vrfx_variants": {}, "dups": {},
              "degenerate": {"vrf_small_order_key_encodings": 0, "small_order_gamma_proofs": 0, "non_subgroup_points": 0, "rejected": 0}}
     n_eval = 0
 
@@ -459,6 +696,15 @@ def run(ctx):
     if cases is not None:
         check_bits(ctx, cases, stats)
         n_eval += len(cases)
+
+    # --- executable byte-level ECVRF model, has_duplicates as coded, chunked key sums around the 150-key threshold
+    n_eval += run_vrfx(ctx, binp, stats, 5 if q else 60)
+    n_eval += run_dups(ctx, binp, stats, 32 if q else 800)
+    n_eval += run_par(ctx, binp, stats)
+    ctx.notes["vrfx_alpha_lengths"] = stats["vrfx_alpha"]
+    ctx.notes["vrfx_hash_to_curve_attempts"] = stats["vrfx_attempts"]
+    ctx.notes["vrfx_proof_encoding_variants(parsed, rejected)"] = stats["vrfx_variants"]
+    ctx.notes["has_duplicates_cases(len/kind)"] = stats["dups"]
 
     cases = run_mode(ctx, binp, ["keys", ctx.seed])
     if cases is not None:
